@@ -17,7 +17,7 @@ double g_dot;
 #ifdef UNIT_point3_dot
 double Point3_dot__contract(struct Point3 *this_, struct Point3 *point_right)
 __CPROVER_assigns()
-__CPROVER_ensures(SAME(__CPROVER_return_value, DOT3(this_->point.e[0], this_->point.e[1], this_->point.e[2], point_right->point.e[0], point_right->point.e[1], point_right->point.e[2])))
+__CPROVER_ensures(SAMEV(__CPROVER_return_value, DOT3(this_->point.e[0], this_->point.e[1], this_->point.e[2], point_right->point.e[0], point_right->point.e[1], point_right->point.e[2])))
 ;
 void h_point3_dot(void) { struct Point3 a, b; Point3_dot(&a, &b); REACHABLE(); }
 #endif
@@ -32,7 +32,7 @@ __CPROVER_ensures(g_calls == 2 ==> (SAMEL(__CPROVER_return_value.point.e[0], g_c
 ;
 double Point3_dot__contract(struct Point3 *this_, struct Point3 *point_right)
 __CPROVER_assigns()
-__CPROVER_ensures(SAME(__CPROVER_return_value, DOT3(this_->point.e[0], this_->point.e[1], this_->point.e[2], point_right->point.e[0], point_right->point.e[1], point_right->point.e[2])))
+__CPROVER_ensures(SAMEV(__CPROVER_return_value, DOT3(this_->point.e[0], this_->point.e[1], this_->point.e[2], point_right->point.e[0], point_right->point.e[1], point_right->point.e[2])))
 ;
 #define RADIUS (point_1->point.e[0])
 #define COSANGLE FPX(DOT3(g_c1x, g_c1y, g_c1z, g_c2x, g_c2y, g_c2z) / (RADIUS * RADIUS))
